@@ -169,6 +169,18 @@ def run_case(case, prop) -> Dict[str, Any]:
     if not sc["rt"]["dyadic"]:
         st["non_dyadic"] = 1
     out["fps"].add(pcore.fingerprint(r.hist))
+    # the exact step set and the data-flow also hold in real-time mode (events are demands)
+    if sc["config"].get("rt_factor") is not None and oc[0] == "ok" and not info["past_event"]:
+        from ..engine import load_known, match_known
+        known = load_known()
+        cviols, _ = pcore.analyse_run(sc, rm, r, want_lazy_probe=False)
+        for p_ in ("C01", "C02", "C03"):
+            for v in cviols.get(p_, []):
+                if match_known(p_, v, known) is not None:
+                    st["core_known_finding_in_rt_run"] = st.get("core_known_finding_in_rt_run", 0) + 1
+                    continue
+                viols.append({"kind": f"rt_{p_}_{v['kind']}", "features": {}, "detail": v["detail"]})
+        st["rt_runs_checked_by_core_oracles"] = 1
     # (e) strict vs. non-strict: identical histories up to the first too-slow report
     if sc["config"].get("rt_factor") is not None and not viols:
         sc2 = copy.deepcopy(sc)
